@@ -19,6 +19,16 @@ for f in r["funcs"]:
         for p in o.get("props") or []:
             if p in lock:
                 lock[p].append("govc/%s/%s" % (key, o["name"]))
+aout = tempfile.mktemp(suffix=".json")
+subprocess.run(["python3-vt", os.path.join(here, "asmvc", "main.py"), "--out", aout], env=env)
+try:
+    for o in json.load(open(aout)).get("obligations", []):
+        if o["status"] == "discharged":
+            for p in o.get("props", []):
+                if p in lock:
+                    lock[p].append(o["id"])
+except Exception as e:
+    print("asmvc lock skipped:", e)
 extra = os.path.join(here, "obligations.extra.json")
 if os.path.exists(extra):
     for p, l in json.load(open(extra)).items():
